@@ -233,6 +233,62 @@ fn run_case(line: &str) -> String {
     )
 }
 
+/// The same fd adapted twice (finding F16): the second adapt_io() fails (the poller refuses a second registration of one fd) and
+/// must leave everything as it was - in particular the first adapter's registration: a task waiting on it is still woken.
+struct SharedStream(Rc<UnixStream>);
+impl std::os::fd::AsFd for SharedStream {
+    fn as_fd(&self) -> std::os::fd::BorrowedFd<'_> {
+        self.0.as_fd()
+    }
+}
+fn run_dup_case(line: &str) -> String {
+    use std::io::Write;
+    let nb_before = line.trim() == "1";
+    let mut event_loop: EventLoop<'static, ()> = EventLoop::try_new().expect("loop");
+    let epfd = event_loop.as_raw_fd();
+    let handle = event_loop.handle();
+    let (exec, sched) = executor::<u8>().expect("executor");
+    let woken = Rc::new(RefCell::new(0u8));
+    let w2 = woken.clone();
+    handle.insert_source(exec, move |v, _, _| *w2.borrow_mut() = v).expect("insert");
+    let (rx, mut tx) = UnixStream::pair().expect("pair");
+    let rxfd = rx.as_raw_fd();
+    set_nonblock(rxfd, nb_before);
+    let rx = Rc::new(rx);
+    let mut first = handle.adapt_io(SharedStream(rx.clone())).expect("first adapt");
+    let second_err = handle.adapt_io(SharedStream(rx.clone())).is_err();
+    let still_nb = nonblock(rxfd);
+    let registered_after_failure = epoll_fds(epfd).contains(&rxfd);
+    sched
+        .schedule(async move {
+            first.readable().await;
+            drop(first);
+            7u8
+        })
+        .expect("schedule");
+    let _ = event_loop.dispatch(Some(Duration::ZERO), &mut ());
+    let _ = tx.write_all(b"x");
+    let mut n = 0;
+    while *woken.borrow() == 0 && n < 40 {
+        let _ = event_loop.dispatch(Some(Duration::from_millis(10)), &mut ());
+        n += 1;
+    }
+    let first_woken = *woken.borrow() == 7;
+    let epoll_clean = !epoll_fds(epfd).contains(&rxfd);
+    let flags_ok = nonblock(rxfd) == nb_before;
+    format!(
+        "second_err={} still_nb={} registered_after_failure={} first_woken={} epoll_clean={} flags_ok={}",
+        second_err as u8, still_nb as u8, registered_after_failure as u8, first_woken as u8, epoll_clean as u8, flags_ok as u8
+    )
+}
+
+pub fn run_dup() {
+    crate::for_each_line(|l| {
+        let r = std::panic::catch_unwind(|| run_dup_case(l)).unwrap_or_else(|_| "PANIC".to_string());
+        println!("{}", r);
+    });
+}
+
 pub fn run() {
     crate::for_each_line(|l| {
         let r = std::panic::catch_unwind(|| run_case(l)).unwrap_or_else(|_| "PANIC".to_string());
